@@ -398,6 +398,26 @@ pub fn run(tier: Tier) -> i32 {
             }
         }
     });
+    // parts that *create* values inside the expression which the document pool does not contain: integers beyond
+    // i64, the i64 minimum, huge and tiny doubles, negative zero, non-ASCII text -- staged evaluation hands them from
+    // one search call to the next
+    let mut st = st;
+    {
+        let extreme = [
+            "`18446744073709551615`", "`[9223372036854775808, 1]`", "`-9223372036854775808`", "`{\"a\": 18446744073709551615, \"b\": [9007199254740993]}`",
+            "`1e308`", "`5e-324`", "`-0.0`", "`[1, 1.0]`", "`\"\\u00e9\\ud83d\\ude00\"`", "'\u{e9}\u{1F600}'", "`[[18446744073709551615], null, [-1]]`",
+        ];
+        let mut rs: Vec<String> = e0v.clone();
+        rs.extend(["[0] > [1]", "a", "@[0]", "[@, @]", "to_string(@)", "[*]", "*", "[]", "a > b", "@ == @"].iter().map(|s| s.to_string()));
+        let mut s2 = Stats::default();
+        for l in extreme {
+            for r in &rs {
+                check_pair(l, r, &dv, &mut s2);
+                check_pair(r, l, &dv[..3.min(dv.len())], &mut s2);
+            }
+        }
+        st = st.merge(s2);
+    }
     rep.guard("non-null compound results occur", st.nontrivial > 1000);
     rep.rule = "all pairs (L, R) from E1 x E0, E0 x E1 and six diagonals of E1 x E1 (thorough: all of E1 x E1) x 11 laws x the document pool: the compound expression (text, and where expressible the tree built through Expression::new) against the combination of the parts' individual search results, computed with separate search calls of the implementation. states = pairs; transitions = (pair, law, document); non-trivial = non-null compound result".into();
     rep.bounds = json!({"E1": e1v.len(), "E0": e0v.len(), "laws": LAWS, "documents": dv.len(), "full_product": step == 1});
